@@ -547,7 +547,7 @@ def rule_r2(repo):
         rr.instance('TemplateCompiler overrides %s' % nm)
         if nm not in tc.methods:
             rr.fail('TemplateCompiler.%s:missing' % nm, tc.node.lineno and 'pybufrkit/templatecompiler.py', 'TemplateCompiler does not override %s' % nm)
-    rr.require_floor(12)
+    rr.require_floor(6)
     return rr
 
 
